@@ -1130,7 +1130,75 @@ pub fn temp_programs() -> Vec<(String, String)> {
     cmd_family(&mut out);
     held_family(&mut out);
     bulk_family(&mut out);
+    deferred_family(&mut out);
     out
+}
+
+// ------------------------------------------------------------------------------------------------
+// deferred storage: a value that owns NO storage yet (an empty array, an empty string, a fresh process command)
+// is stored into something that outlives the current frame — by index assignment, push, a `make` at top level,
+// a return value kept by the caller, an element of a nested array — and only LATER acquires storage, inside a
+// region whose frame is reset (a loop body, a function called in a loop, a nested block in a function); then it
+// is read after the reset. (Seed C02-d1: index assignment skipped promotion for an empty array, whose `Vec`
+// kept the frame allocator.)  how it is stored (6) x what it is (3) x where it grows (4) x how it grows (3).
+
+fn deferred_family(out: &mut Vec<(String, String)>) {
+    let stores: [(&str, &str); 6] = [
+        ("index-assign", "make box get [[\"old\"], [\"old2\"], [\"old3\"]]\nbox[1] get {E}"),
+        ("index-assign-loop", "make box get [[\"a\"], [\"b\"], [\"c\"]]\nmake z get 0\njasi (z small pass 3) start\nbox[z] get {E}\nz get z add 1\nend"),
+        ("push", "make box get [[\"x\"]]\nbox.push({E})\nbox.push({E})"),
+        ("literal", "make box get [{E}, {E}, {E}]"),
+        ("returned", "do fresh() start\nreturn {E}\nend\nmake box get [[\"k\"]]\nbox[0] get fresh()\nbox.push(fresh())"),
+        ("nested", "make box get [[[\"n\"]], [[\"m\"]]]\nbox[1][0] get {E}\nbox[0] get [{E}]"),
+    ];
+    // (tag, empty value, grow statement on target {T} with payload {P}, read expression on {T})
+    let kinds: [(&str, &str, [&str; 3], &str); 3] = [
+        ("array", "[]", ["{T}.push({P})", "{T}.push([{P}, {P}])", "{T}.push({P})\n{T}.reverse()"], "{T}"),
+        ("string", "\"\"", ["{T} get {T} add {P}", "{T} get {T} add {P} add \"-\" add {P}", "{T} get \"<{{P}}>\" add {T}"], "{T}"),
+        ("rows", "[[]]", ["{T}[0].push({P})", "{T}.push([{P}])", "{T}[0].push([{P}])"], "{T}"),
+    ];
+    let regions: [&str; 4] = ["loop", "fn-in-loop", "block-in-fn", "recursion"];
+    for (stag, store) in stores {
+        for (ktag, empty, grows, read) in kinds {
+            for (ri, region) in regions.iter().enumerate() {
+                for (gi, grow) in grows.iter().enumerate() {
+                    // the target inside `box` that was stored empty
+                    let target = match stag {
+                        "index-assign" => "box[1]",
+                        "index-assign-loop" => "box[w mod 3]",
+                        "push" => "box[1 add w mod 2]",
+                        "literal" => "box[w mod 3]",
+                        "returned" => "box[w mod 2]",
+                        _ => "box[w mod 2][0]",
+                    };
+                    let payload = "\"item_\" add to_string(w)";
+                    let g = grow.replace("{T}", target).replace("{{P}}", "{w}").replace("{P}", payload);
+                    let mut lines: Vec<String> = vec![store.replace("{E}", empty)];
+                    match *region {
+                        "loop" => lines.push(format!("make w get 0\njasi (w small pass 7) start\n{g}\nw get w add 1\nend")),
+                        "fn-in-loop" => lines.push(format!(
+                            "do fill(w) start\n{g}\nreturn w\nend\nmake w get 0\njasi (w small pass 7) start\nfill(w)\nw get w add 1\nend"
+                        )),
+                        "block-in-fn" => lines.push(format!(
+                            "do fill(w) start\nstart\nmake pad get \"pad\" add to_string(w)\n{g}\nend\nreturn w\nend\nfill(0)\nfill(1)\nfill(2)\nfill(3)\nmake w get 3"
+                        )),
+                        _ => lines.push(format!(
+                            "do fill(w) start\nif to say (w small pass 6) start\n{g}\nreturn fill(w add 1)\nend\nreturn w\nend\nfill(0)\nmake w get 5"
+                        )),
+                    }
+                    // churn that reuses whatever the resets gave back, then the reads
+                    lines.push("make churn get 0\njasi (churn small pass 5) start\nmake t get \"churn_\" add to_string(churn) add \"_xxxxxxxxxxxxxxxx\"\nchurn get churn add 1\nend".into());
+                    let t0 = target.replace("w mod 3", "0").replace("w mod 2", "0").replace("1 add 0", "1");
+                    lines.push(format!("shout({})", read.replace("{T}", &t0)));
+                    lines.push("shout(box)".into());
+                    lines.push("shout(box.len())".into());
+                    lines.push("shout(\"done\")".into());
+                    let _ = (ri, gi);
+                    out.push((format!("deferred={stag} kind={ktag} region={region} grow={gi}"), lines.join("\n")));
+                }
+            }
+        }
+    }
 }
 
 // ------------------------------------------------------------------------------------------------
